@@ -19,6 +19,7 @@ R-C01-5  (construction-site table) range(..)/slice(..): argument 1 = from; argum
 R-C01-6  (syntax) interpolated strings stay interpolated: Str with expressions -> FStr -> a template opening with `f"`; else Str.
 R-C01-7  (site census) the desugaring state: setters change one field; return/assignment requests only at the reviewed sites.
 R-C01-8  (docs vs lexer) a sign the documented number grammar allows inside a literal is consumed by the lexer's number loop.
+R-C01-9  (syntax, shared with R-C17-4) the synthesised constructor is left out only when it would have no statements.
 R-C10-*  (reused) printing never changes the grouping of operators.   R-C11-1 (reused) the annotate flag only reaches annotations.
 """
 import re
@@ -64,6 +65,9 @@ def run(chk, facts):
     _fstr(chk, facts)
     _state_flags(chk, facts)
     _number_grammar(chk, facts)
+    chk.rule("R-C01-9", "class constructors: the synthesised __init__ is left out only when it would be empty (shared with R-C17-4)")
+    from .c17 import init_emitted
+    init_emitted(chk, facts, "R-C01-9")
     # reuse: grouping and annotate-independence
     from . import c10, c11
     c10.run(chk, facts)
@@ -450,9 +454,18 @@ def _ranges(chk, facts):
                         b = strip(tail_expr(b) if b.get("k") == "block" else b)
                         if b.get("k") == "struct" and b["p"] in ("Core::Add", "Core::Sub"):
                             f = dict(b["fields"])
-                            one = [n for n in walk(f["right"]) if n.get("k") == "lit" and n.get("t") == "str"]
-                            if conv_of(f["left"]) == "to" and len(one) == 1 and one[0]["v"] == "1":
+                            # the right operand must be *exactly* the literal Core::Int { int: "1" } (through Box::from): anything
+                            # computed (a match on the step, a call) is a different adjustment
+                            r = strip(f["right"])
+                            while r.get("k") == "call" and src(r["f"]) in ("Box::from", "Box::new") and len(r["args"]) == 1:
+                                r = strip(r["args"][0])
+                            is_one = r.get("k") == "struct" and r["p"] == "Core::Int" and len(r["fields"]) == 1 and \
+                                [n["v"] for n in walk(r["fields"][0][1]) if n.get("k") == "lit" and n.get("t") == "str"] == ["1"] and \
+                                not any(n.get("k") in ("match", "if", "mcall") and n.get("m", "") not in ("", "from") for n in walk(r["fields"][0][1]) if n.get("k") in ("match", "if"))
+                            if conv_of(f["left"]) == "to" and is_one:
                                 return "to+1" if b["p"] == "Core::Add" else "to-1"
+                            if conv_of(f["left"]) == "to":
+                                return ("to+" if b["p"] == "Core::Add" else "to-") + "<" + src(r)[:30] + ">"
                             return "?"
                         return "to" if conv_of(b) == "to" else "?"
                     ai, ae = adj(incl_branch), adj(excl_branch)
@@ -460,8 +473,10 @@ def _ranges(chk, facts):
                     chk.ob("R-C01-5", f"{label}:end", ok, f"{label}: end is `to` when exclusive and `to + 1` when inclusive" if ok else
                            f"{label}: end is `{ae}` when exclusive and `{ai}` when inclusive; Python's {label}() excludes its end, so exclusive must be `to` and inclusive `to + 1`", loc)
                     # the inclusive adjustment is +1 whatever the sign of the step
-                    if v == "Range":
-                        mentions_step = "step" in idents_in(incl_branch)
+                    if v == "Range" and ai == "to+1":
+                        # `to + 1` is the right end only for a positive step; no shape other than the literal 1 is recognised above, so a
+                        # repair of this finding has to extend adj() with the form it uses
+                        mentions_step = False
                         chk.ob("R-C01-5", "range:inclusive-end-ignores-step", mentions_step, "the inclusive end adjustment follows the direction of the step" if mentions_step else
                                "the inclusive end is `to + 1` whatever the step: with a negative step the range stops one short of `to` (3 ..= 1 .. -1 gives 3 only)", loc)
                 # e2: step or 1
